@@ -177,6 +177,9 @@ mut("M31", "C20", "index errors get a second line (a hint) on standard error", [
 mut("M32", "C20", "the diagnostic for an undecodable document quotes the offending text, line breaks included", [
     (P + "cli.py", '        sys.stderr.write(f"target document json decode error: {err}\\n")', '        sys.stderr.write(f"target document json decode error: {err}: {getattr(err, \'doc\', \'\')[:40]}\\n")'),
 ])
+mut("M33", "C18", "a scratch buffer whose size explodes beyond 150 levels of nesting (memory, not time)", [
+    (P + "segments.py", "                yield _node\n                stack.append(_container_children(_node))\n", "                yield _node\n                if len(stack) > 150:\n                    _scratch = bytearray(1 << 37)  # noqa: F841\n                stack.append(_container_children(_node))\n"),
+])
 
 
 def apply_edits(root: str, edits: List[Tuple[str, str, str]]) -> None:
